@@ -131,6 +131,12 @@ class C15:
                 return False
         return True
 
+    def _opt(self, spec):
+        try:
+            return self.ctx.prog.func(spec)
+        except AnalysisError:
+            return None
+
     def r2(self):
         rep, ctx, p = self.rep, self.ctx, self.ctx.prog
         rep.rule("C15.R2", "the three critical sections named by the property are single lock regions: event application "
@@ -142,7 +148,7 @@ class C15:
                                              [st.methods["lookup_oid"], st.methods["lookup_path"]]]),
             ("SyncManager.do", [[st.methods["change"]], [p.func("SyncManager._sync_one_entry")]]),
             ("SmartCloudSync._smart_sync_ent", [[p.func("SmartSyncManager.get_parent_conflicts")], [p.func("SmartCloudSync._sync_one_entry")],
-                                                [p.func("SideState.mark_changed"), p.func("SyncEntry.mark_changed"), st.methods["mark_changed"]]]),
+                                                [x for x in (self._opt("SideState.mark_changed"), self._opt("SyncEntry.mark_changed"), st.methods.get("mark_changed")) if x is not None]]),
         ]
         for spec, groups in specs:
             f = p.func(spec)
